@@ -153,7 +153,7 @@ class Ctx:
             for e in ev:
                 c = case_of(e)
                 if c is not None:
-                    self.distinct.add(c)
+                    self.distinct.add(hash(c))        # hashes, not the tuples themselves: thorough tiers hold millions
         if ev and len(self.samples) < 6:
             self.samples.append(ev[self.rng.randrange(len(ev))])
         rej = self.validate(ev, module=module, cfg=cfg, shards=shards)
